@@ -31,6 +31,7 @@ H12 = 12 * 3600
 def run(plan):
     long_n = plan.get("long_session", 0)
     s = Session(plan, max_iterations=6000 + 12 * long_n)
+    lanmod = s.world.ns.lan
     w = s.world
     dev = s.dev
     res = Result()
@@ -53,6 +54,26 @@ def run(plan):
         stored = [None]
         any_cancel = [False]
         frame = w.ns.command.GetStateCommand().tobytes().hex()
+        if plan.get("long_proto"):
+            # > 65,536 packets on one connection, at protocol level (cheap enough for the quick tier)
+            from .common import HOST, PORT
+            op_ranges.append((0, 10 ** 9, "long", s.token, "good", None))
+            _t, proto = await w.loop.create_connection(lambda: lanmod._LanProtocolV3(), HOST, PORT)
+            try:
+                await proto.authenticate(s.token, s.key)
+            except Exception as e:
+                res.fail(f"genuine handshake raised {type(e).__name__}", repr(e))
+                return
+            dev.raw_payload_handler = lambda conn, dec, key: None
+            for i in range(plan["long_proto"]):
+                try:
+                    proto.write(b"ab")
+                except Exception as e:
+                    res.fail(f"long session: write raised {type(e).__name__}", f"after {i} data packets: {e!r}")
+                    return
+                if i % 4096 == 0:
+                    await asyncio.sleep(0)
+            return
         if long_n:
             o = await s.do({"op": "auth"})
             if o.kind != "ok":
@@ -215,7 +236,8 @@ def run(plan):
     if ncancel:
         res.fired["cancellation"] = ncancel
     res.key = res.digest
-    res.nontrivial = bool(res.fired) or any(op.get("cred", "good") != "good" for op in plan.get("ops", [])) or bool(long_n)
+    res.nontrivial = (bool(res.fired) or any(op.get("cred", "good") != "good" for op in plan.get("ops", []))
+                      or bool(long_n) or bool(plan.get("long_proto")))
     return res
 
 
@@ -307,6 +329,10 @@ def space(tier):
         n = (5000 if j == 0 else 4200) if tier == "quick" else (70000 if j == 0 else 9000)
         return {"config": {"version": 3, "token": rand_bytes(rng, 64).hex(), "key": rand_bytes(rng, 32).hex()},
                 "ops": [], "long_session": n}
+    def long_proto(j, rng):
+        return {"config": {"version": 3, "token": rand_bytes(rng, 64).hex(), "key": rand_bytes(rng, 32).hex()},
+                "ops": [], "long_proto": 66_000 + 4096 * j}
+    sp.add("long_session_protocol_level", 2 if tier == "quick" else 6, long_proto)
     sp.add("long_session", 2 if tier == "quick" else 4, long_fn)      # first: the longest runs start first
     sp.add("histories", 12000 if tier == "quick" else 600_000, gen_plan)
     return sp
